@@ -136,3 +136,224 @@ Proof. vm_compute. reflexivity. Qed.
 Example lines_spec_ex_missing :
   lines_spec (mkRect 0 0 10 10) [(-5, 5); (5, 5); (15, 5)] [[(0, 5); (5, 5)]] = (true, true, true, false).
 Proof. vm_compute. reflexivity. Qed.
+
+(* ====================================================================================================
+   C08: RectClip = intersection with the rectangle, path by path
+   ==================================================================================================== *)
+From Coq Require Import QArith Qreduction.
+Local Open Scope Z_scope.
+
+(* ---------- exact simplicity test for a closed path ---------- *)
+Definition seg_meet (e1 e2 : pt * pt) : bool :=
+  let (a, b) := e1 in let (c, d) := e2 in
+  let o1 := Z.sgn (cross a b c) in let o2 := Z.sgn (cross a b d) in
+  let o3 := Z.sgn (cross c d a) in let o4 := Z.sgn (cross c d b) in
+  ((o1 * o2 <? 0) && (o3 * o4 <? 0))
+  || on_seg c e1 || on_seg d e1 || on_seg a e2 || on_seg b e2.
+
+(* consecutive edges (a,b) (b,c) only share b *)
+Definition adjacent_ok (e1 e2 : pt * pt) : bool :=
+  negb (pt_eqb (fst e1) (snd e1)) && negb (pt_eqb (fst e2) (snd e2))
+  && negb (on_seg (fst e1) e2) && negb (on_seg (snd e2) e1).
+
+Fixpoint simple_rest (e : pt * pt) (rest : list (pt * pt)) : bool :=
+  (* e against the edges after its successor *)
+  match rest with
+  | [] => true
+  | f :: rest' => negb (seg_meet e f) && simple_rest e rest'
+  end.
+
+(* [first] = is e_0 still to be excluded as the cyclic neighbour of the last edge *)
+Fixpoint simple_edges (es : list (pt * pt)) : bool :=
+  match es with
+  | e :: ((f :: rest) as t) => adjacent_ok e f && simple_rest e rest && simple_edges t
+  | _ => true
+  end.
+
+Definition path_simple (p : path) : bool :=
+  match cyc_edges p with
+  | e0 :: ((e1 :: rest) as t) =>
+    (3 <=? length p)%nat &&
+    (* e0 against e2 .. e_{n-2} (its cyclic neighbours are e1 and e_{n-1}), then the rest linearly *)
+    adjacent_ok e0 e1 && simple_rest e0 (removelast rest) && adjacent_ok (last t e0) e0 && simple_edges t
+  | _ => false
+  end.
+
+(* ---------- exact area of (polygon intersected with rectangle), Sutherland-Hodgman over Q ---------- *)
+Definition qpt := (Q * Q)%type.
+Definition qc (axis : bool) (p : qpt) : Q := if axis then fst p else snd p.   (* axis = true: x *)
+Definition hp_inside (axis lower : bool) (c : Q) (p : qpt) : bool :=
+  if lower then Qle_bool c (qc axis p) else Qle_bool (qc axis p) c.
+(* the point of segment pq whose [axis] coordinate is c (only called when the coordinates differ) *)
+Definition hp_isect (axis : bool) (c : Q) (p q : qpt) : qpt :=
+  let '(x1, y1) := p in let '(x2, y2) := q in
+  if axis then (c, Qred (y1 + (y2 - y1) * (c - x1) / (x2 - x1)))%Q
+  else (Qred (x1 + (x2 - x1) * (c - y1) / (y2 - y1)), c)%Q.
+
+Fixpoint sh_walk (axis lower : bool) (c : Q) (prev : qpt) (l : list qpt) : list qpt :=
+  match l with
+  | [] => []
+  | cur :: t =>
+    let ic := hp_inside axis lower c cur in
+    let ip := hp_inside axis lower c prev in
+    (if ic then (if ip then [cur] else [hp_isect axis c prev cur; cur])
+     else (if ip then [hp_isect axis c prev cur] else []))
+    ++ sh_walk axis lower c cur t
+  end.
+
+Definition sh_clip (axis lower : bool) (c : Q) (p : list qpt) : list qpt :=
+  match p with [] => [] | _ => sh_walk axis lower c (last p (0, 0)%Q) p end.
+
+Definition z2q (z : Z) : Q := inject_Z z.
+Definition clip_to_rect (r : rect) (p : path) : list qpt :=
+  sh_clip false false (z2q (r_bottom r))
+ (sh_clip false true (z2q (r_top r))
+ (sh_clip true false (z2q (r_right r))
+ (sh_clip true true (z2q (r_left r)) (map (fun v => (z2q (px v), z2q (py v))) p)))).
+
+Fixpoint qarea_walk (prev : qpt) (l : list qpt) : Q :=
+  match l with
+  | [] => 0%Q
+  | cur :: t => ((snd prev + snd cur) * (fst prev - fst cur) + qarea_walk cur t)%Q
+  end.
+(* same convention as Geom.area2 *)
+Definition qarea2 (p : list qpt) : Q := match p with [] => 0%Q | _ => Qred (qarea_walk (last p (0, 0)%Q) p) end.
+
+(* twice the integral of the winding number of p over the rectangle, as a reduced fraction *)
+Definition clip_area2 (r : rect) (p : path) : Z * Z :=
+  let a := Qred (qarea2 (clip_to_rect r p)) in (Qnum a, Zpos (Qden a)).
+
+(* ---------- sample points (doubled coordinates) ---------- *)
+Fixpoint insert_uniq (x : Z) (l : list Z) : list Z :=
+  match l with
+  | [] => [x]
+  | y :: t => if x <? y then x :: l else if x =? y then l else y :: insert_uniq x t
+  end.
+Definition sort_uniq (l : list Z) : list Z := fold_right insert_uniq [] l.
+
+(* between consecutive distinct coordinates a < b: the midpoint, and 2.5 units (5 doubled) inside either end *)
+Fixpoint gaps (l : list Z) : list Z :=
+  match l with
+  | a :: ((b :: _) as t) =>
+    (if 2 <=? b - a then [(a + b) / 2] else []) ++ (if 10 <? b - a then [a + 5; b - 5] else []) ++ gaps t
+  | _ => []
+  end.
+
+Definition axis_samples (vals : list Z) (lo hi : Z) : list Z :=
+  sort_uniq (gaps (sort_uniq (lo :: hi :: filter (fun v => (lo <? v) && (v <? hi)) vals))).
+
+(* every k-th element *)
+Fixpoint every (k i : nat) (l : list pt) : list pt :=
+  match l with
+  | [] => []
+  | x :: t => match i with O => x :: every k (k - 1) t | S i' => every k i' t end
+  end.
+
+Definition grid (xs ys : list Z) : list pt := flat_map (fun x => map (fun y => (x, y)) ys) xs.
+
+Definition dbl (p : pt) : pt := (2 * px p, 2 * py p).
+Definition dbl_path (p : path) : path := map dbl p.
+
+Definition inside_samples (r : rect) (p : path) (o : paths) (cap : nat) : list pt :=
+  let vs := p ++ concat o in
+  let xs := axis_samples (map (fun v => 2 * px v) vs) (2 * r_left r) (2 * r_right r) in
+  let ys := axis_samples (map (fun v => 2 * py v) vs) (2 * r_top r) (2 * r_bottom r) in
+  let g := grid xs ys in
+  let n := length g in
+  if (n <=? cap)%nat then g else every ((n + cap - 1) / cap) 0 g.
+
+Definition outside_samples (r : rect) (o : paths) : list pt :=
+  let l := 2 * r_left r in let rr := 2 * r_right r in let t := 2 * r_top r in let b := 2 * r_bottom r in
+  let xs := sort_uniq ([l - 3; rr + 3; (l + rr) / 2] ++ map (fun v => 2 * px v) (concat o)) in
+  let ys := sort_uniq ([t - 3; b + 3; (t + b) / 2] ++ map (fun v => 2 * py v) (concat o)) in
+  filter (fun q => (px q <? l - 2) || (rr + 2 <? px q) || (py q <? t - 2) || (b + 2 <? py q))
+         (grid [l - 3; rr + 3] ys ++ grid xs [t - 3; b + 3]).
+
+(* q (doubled) is strictly inside the rectangle and farther than 2 units (4 doubled) from the doubled path edges *)
+Definition qualifies (r : rect) (es2 : list (pt * pt)) (q : pt) : bool :=
+  (2 * r_left r <? px q) && (px q <? 2 * r_right r) && (2 * r_top r <? py q) && (py q <? 2 * r_bottom r)
+  && forallb (fun e => negb (seg_near 4 1 q e)) es2.
+
+(* an edge of p lies along a side of the rectangle (on its line, touching the closed rectangle) *)
+Definition has_edge_along_side (r : rect) (p : path) : bool :=
+  existsb (fun e => along_side r e && negb (pt_eqb (fst e) (snd e)) && match seg_clip r e with Some _ => true | None => false end) (cyc_edges p).
+
+(* no part of p's boundary meets the closed rectangle *)
+Definition no_edge_meets (r : rect) (p : path) : bool :=
+  forallb (fun e => match seg_clip r e with Some _ => false | None => true end) (cyc_edges p).
+
+Definition near_boundary (r : rect) (v : pt) : bool :=
+  in_rect_slack r 1 v &&
+  negb ((r_left r + 1 <? px v) && (px v <? r_right r - 1) && (r_top r + 1 <? py v) && (py v <? r_bottom r - 1)).
+
+Definition paths_eqb (a b : paths) : bool :=
+  (length a =? length b)%nat &&
+  forallb (fun '(p, q) => (length p =? length q)%nat && forallb (fun '(u, v) => pt_eqb u v) (combine p q)) (combine a b).
+
+Definition l1_perimeter (p : path) : Z :=
+  zsum (map (fun '(a, b) => Z.abs (px a - px b) + Z.abs (py a - py b)) (cyc_edges p)).
+
+Record clip_verdict := {
+  cv_shape : bool;          (* every output path has >= 3 vertices *)
+  cv_within : bool;         (* every output vertex within the rectangle grown by 1 *)
+  cv_newv : bool;           (* every output vertex that is not an input vertex is within 1 unit of the boundary *)
+  cv_simple : bool;         (* the input is a simple polygon *)
+  cv_along : bool;          (* an input edge lies along a side *)
+  cv_checked : nat;         (* sample points that qualified (strictly inside, > 2 from the input) *)
+  cv_wn_bad : list pt;      (* qualified sample points (doubled) violating the winding clause *)
+  cv_out_bad : list pt;     (* sample points (doubled) > 1 unit outside the rectangle that the output covers *)
+  cv_inside_ok : bool;      (* input inside the rectangle  =>  output = [input] *)
+  cv_outside_ok : bool;     (* input entirely outside  =>  output = [] *)
+  cv_orient_ok : bool;      (* simple input: output paths of significant area have the input's orientation *)
+  cv_area_in : Z;           (* area2 of the input *)
+  cv_area_out : Z;          (* sum of area2 of the output *)
+  cv_area_exact : Z * Z;    (* 2 * integral over the rectangle of the input's winding number *)
+  cv_area_slack : Z         (* 2 * l1 perimeter of the output + 8 : rounding allowance used to pre-filter *)
+}.
+
+Definition wn_clause (simple along : bool) (wi wo : Z) : bool :=
+  if simple then wi =? wo
+  else if along then true
+  else Z.even (wi - wo).
+
+Definition clip_spec (r : rect) (p : path) (o : paths) (cap : nat) (extra : list pt) : clip_verdict :=
+  let simple := path_simple p in
+  let along := has_edge_along_side r p in
+  let p2 := dbl_path p in
+  let o2 := map dbl_path o in
+  let es2 := cyc_edges p2 in
+  let qs := filter (qualifies r es2) (inside_samples r p o cap ++ extra) in
+  let bad := filter (fun q => negb (wn_clause simple along (wn p2 q) (wn_paths o2 q))) qs in
+  let obad := filter (fun q => negb (wn_paths o2 q =? 0)) (outside_samples r o) in
+  let inside := rect_contains_rect r (get_bounds p) && (3 <=? length p)%nat in
+  let rc2 := (r_left r + r_right r, r_top r + r_bottom r) in      (* centre, doubled *)
+  let outside := no_edge_meets r p && (wn p2 rc2 =? 0) in
+  let ain := area2 p in
+  let aouts := map area2 o in
+  {| cv_shape := forallb (fun q => (3 <=? length q)%nat) o;
+     cv_within := forallb (forallb (in_rect_slack r 1)) o;
+     cv_newv := forallb (forallb (fun v => existsb (pt_eqb v) p || near_boundary r v)) o;
+     cv_simple := simple;
+     cv_along := along;
+     cv_checked := length qs;
+     cv_wn_bad := bad;
+     cv_out_bad := obad;
+     cv_inside_ok := if inside then paths_eqb o [p] else true;
+     cv_outside_ok := if outside then match o with [] => true | _ => false end else true;
+     cv_orient_ok :=
+       if simple then
+         forallb (fun q => let a := area2 q in
+                           (Z.abs a <=? 2 * l1_perimeter q + 8) || (Z.sgn a =? Z.sgn ain)) o
+       else true;
+     cv_area_in := ain;
+     cv_area_out := zsum aouts;
+     cv_area_exact := clip_area2 r p;
+     cv_area_slack := 2 * zsum (map l1_perimeter o) + 8 |}.
+
+(* sanity *)
+Example path_simple_ex : path_simple [(0,0); (4,0); (4,4); (0,4)] = true
+  /\ path_simple [(0,0); (4,4); (4,0); (0,4)] = false /\ path_simple [(0,0); (4,0); (2,0)] = false
+  /\ path_simple [(0,0); (4,0); (4,4); (2,0); (0,4)] = false.
+Proof. vm_compute. repeat split; reflexivity. Qed.
+Example clip_area2_ex : clip_area2 (mkRect 0 0 10 10) [(-5, 5); (5, -5); (5, 15)] = (100, 1) /\ area2 [(-5, 5); (5, -5); (5, 15)] = 200.
+Proof. vm_compute. repeat split; reflexivity. Qed.
